@@ -206,7 +206,56 @@ def check_pair(case, ev):
     return None
 
 
-REPLAY = {"single": check_single, "grid": check_single, "pair": check_pair}
+def check_refeed(case, ev):
+    """netconan's own output fed back in, in another order (anonymized configurations that were merged or
+    reordered and are anonymized again): every replacement still keeps the format of what it replaces.
+    case: {items: [{form, head, trail, value, cls}], perm: [indices], salt}"""
+    from netconan.anonymize_files import FileAnonymizer
+
+    items = case["items"]
+
+    def run(values):
+        lines = []
+        for it, v in zip(items_now, values):
+            form = S.FORM_BY_ID[it["form"]]
+            lines.append(S.render(form, it["head"], it["trail"], [v], ("", ""), "", ""))
+        fa, exc = guarded(lambda: FileAnonymizer(anon_pwd=True, anon_ip=False, salt=case["salt"]))
+        if exc is not None:
+            return None, core.exc_finding(exc, case, "ctor/")
+        out, exc = guarded(core.run_io, fa, "".join(l[0] + "\n" for l in lines))
+        if exc is not None:
+            return None, core.exc_finding(exc, case, "run/")
+        outs = out.split("\n")[:-1]
+        if len(outs) != len(lines):
+            return None, Finding("refeed/line-count", repr(outs), case)
+        rs = []
+        for (line, spans), o in zip(lines, outs):
+            r = S.extract_replacements(line, spans, o)
+            if r is None:
+                return None, Finding("refeed/context-changed", "%r -> %r" % (line, o), case)
+            rs.append(r[0])
+        return rs, None
+
+    items_now = items
+    first, f = run([it["value"] for it in items])
+    if f is not None:
+        return f
+    perm = [p for p in case["perm"] if p < len(items)]
+    perm += [i for i in range(len(items)) if i not in perm]
+    items_now = [items[p] for p in perm]
+    second, f = run([first[p] for p in perm])
+    if f is not None:
+        return f
+    ev.case(case, perm != sorted(perm) and len({it["cls"] for it in items}) < len(items), ["own-output-fed-back", "items%d" % len(items)] + (["reordered"] if perm != sorted(perm) else []))
+    for p, r1, r2 in zip(perm, [first[p] for p in perm], second):
+        it = items[p]
+        why = format_ok(it["cls"], it["value"], r2)
+        if why is not None and format_ok(it["cls"], it["value"], r1) is None:
+            return Finding("refeed/format-lost-when-own-output-is-anonymized-again:%s" % it["cls"], "first run %r -> %r; second run (order %r) %r -> %r: not a %s value (%s)" % (it["value"], r1, perm, r1, r2, it["cls"], why), case)
+    return None
+
+
+REPLAY = {"refeed": check_refeed, "single": check_single, "grid": check_single, "pair": check_pair}
 
 _FORMS1 = [f for f in S.POS_FORMS if f.slots == 1]
 _FORMS_ALL1 = [f for f in S.FORMS if f.slots == 1]
@@ -297,6 +346,23 @@ def t_longline(shard, nshards, seed, ev, known, n=10):
 REPLAY["longline"] = check_single
 
 
+@st.composite
+def _refeed_case(draw):
+    forms = [f for f in _FORMS1 if "exact" not in f.text_kw and f.reject is None and "alphabet_mid" not in f.text_kw and len(f.classes) == len(S.CLASSES)]
+    main_cls = draw(st.sampled_from(["type7", "md5", "numeric", "hex", "text", "sha512", "j9"]))
+    items = []
+    for _ in range(draw(st.integers(2, 5))):
+        c = main_cls if draw(st.integers(0, 3)) else draw(st.sampled_from(["type7", "md5", "numeric", "hex", "text"]))
+        f = draw(st.sampled_from(forms))
+        v = draw(S.value_of(c)) if c != "j9" else draw(S.j9_value(damaged=False))
+        items.append({"form": f.id, "head": draw(st.integers(0, len(f.heads) - 1)), "trail": draw(st.integers(0, len(f.trails) - 1)), "value": v, "cls": c})
+    return {"items": items, "perm": draw(st.permutations(list(range(len(items))))), "salt": draw(st.sampled_from(["Tsalt", "", "s", "QzF"]))}
+
+
+def t_refeed(shard, nshards, seed, ev, known, n=300):
+    return core.hyp_drive(_refeed_case(), check_refeed, n, seed, ev, known, check_name="refeed")
+
+
 def t_pair(shard, nshards, seed, ev, known, n=300):
     return core.hyp_drive(_pair_case(), check_pair, n, seed, ev, known, check_name="pair")
 
@@ -330,4 +396,5 @@ def plan(tier):
         Task("grid", t_grid, shards=2 if q else 4),
         Task("pair", t_pair, shards=3 if q else 16, n=800 if q else 8000),
         Task("longline", t_longline, shards=2 if q else 8, n=12 if q else 150),
+        Task("refeed", t_refeed, shards=2 if q else 8, n=400 if q else 6000),
     ]
